@@ -27,7 +27,7 @@ for p in props:
 man={
  "version":1,
  "setup_cmd":"cd engine && GOFLAGS=-mod=mod GOPROXY=off go build -o ../bin/govc ./cmd/govc",
- "hooks":{"guard":"verif","enable":"-tags=verif (comment-only contracts_verif.go files read by govc; they add no code)","baseline_off_cmd":"cd /repo && go test -mod=mod -vet=off -count=1 ./...","source_commits":hooks,"add_only":True},
+ "hooks":{"guard":"verif","enable":"-tags=verif (*_verif.go files: contracts as comments plus small lemma-harness functions, compiled only with the tag)","baseline_off_cmd":"cd /repo && go test -mod=mod -vet=off -count=1 ./...","source_commits":hooks,"add_only":True},
  "engines":[{"name":"govc","path":"/verif/engine","serves_properties":[c['property_id'] for c in checks],"kind_free_text":"deductive verifier for Go written for this task: forward symbolic execution / weakest preconditions over go/ssa with function contracts, loop invariants (user + Houdini-synthesised), SMT discharge by a cvc5/z3 portfolio, counterexample replay through go test -overlay"}],
  "checks":checks,
  "not_applicable":na,
